@@ -128,11 +128,33 @@ def triggers(r, split):
     ids = []
     if r["ctx"] != "*" or r["since"] != -1:
         ids.append("C09-agg-ignores-scope")
-    if any(f in ("o",) for f in r["by"]):
-        ids.append("C09-null-group-dropped")
-    if any(m["fn"] == "count_unique" and KINDS[m["f"]].startswith("numid") for m in r["metrics"]):
-        ids.append("C09-count-unique-numeric")
     return ids
+
+
+def tables_equal(r, want, got, skip=()):
+    return set(want) == set(got) and all(all(i in skip or cell_eq(m, w, g) for i, (m, w, g) in enumerate(zip(r["metrics"], want[k], got[k]))) for k in want)
+
+
+def explain(r, want, got):
+    """Which open findings, applied to the specification's table, give exactly the table the engine returned?
+    (each finding has a precise effect: the explanation must reproduce the observed table, not merely apply)"""
+    cu = [i for i, m in enumerate(r["metrics"]) if m["fn"] == "count_unique" and KINDS[m["f"]].startswith("numid")]
+    opt_by = any(f in ("o",) for f in r["by"])
+    for drop_null in ((False, True) if opt_by else (False,)):
+        w2 = {k: v for k, v in want.items() if not (drop_null and None in k[1:])}
+        if drop_null and len(w2) == len(want):
+            continue
+        for cu_one in ((False, True) if cu else (False,)):
+            if not drop_null and not cu_one:
+                continue
+            if set(w2) != set(got):
+                continue
+            if not tables_equal(r, w2, got, skip=cu if cu_one else ()):
+                continue
+            if cu_one and not all(got[k][i] == 1 for k in got for i in cu):
+                continue
+            return (["C09-null-group-dropped"] if drop_null else []) + (["C09-count-unique-numeric"] if cu_one else [])
+    return None
 
 
 def compare(chk, case, o, split, text, stats):
@@ -143,13 +165,16 @@ def compare(chk, case, o, split, text, stats):
     if got is None:
         chk.violation(f"{text} [{split}]: {why}", rep)
         return False
-    ok = set(want) == set(got) and all(all(cell_eq(m, w, g) for m, w, g in zip(r["metrics"], want[k], got[k])) for k in want)
-    if ok:
+    if tables_equal(r, want, got):
         if len(want) >= 2 or (want and r["where"]["tag"] != "true"):
             stats["nontrivial_ok"] += 1
         return True
     desc = f"{text} [{split}]: got {sorted(got.items(), key=str)[:6]}, spec says {sorted(want.items(), key=str)[:6]}"
-    ids = triggers(r, split)
+    ids = explain(r, want, got)
+    if ids is None:
+        # the scope finding folds in rows of other contexts / times that are still in memory: its effect depends on
+        # the split and is not reproduced here; any mismatch of a scoped aggregate is attributed to it
+        ids = triggers(r, split)
     if ids:
         if chk.classify(ids, desc, rep) == "known":
             stats["known:" + ids[0]] += 1
